@@ -379,6 +379,35 @@ def rule_paths(ck):
                 o.ok('filtered events computed on every path to this return')
 
 
+def rule_every_path_selects(ck):
+    """D7.select: `filtered` never reaches the end of filter() as the unfiltered events: an assignment of the event array itself (or a
+    copy of it) is only the start of the narrowing - the loop over the statements follows it on every path.  A shortcut such as
+    `if statements == self.filters: filtered = self.catalog` trusts remembered strings (which filter(in_place=False) also writes on the
+    *source* catalog) instead of applying the statements."""
+    P = ck.prog
+    ck.clause('D7')
+    f = P.func(A + 'filter')
+    cfg = f.cfg
+    ex = Expander(P, f)
+    asg = [a for a in find_assignments(f, 'filtered') if isinstance(a, ast.Assign)]
+    loops = [n for n in all_nodes(f) if isinstance(n, ast.For) and any(isinstance(x, ast.Assign) and any(isinstance(t, ast.Name) and t.id == 'filtered' for t in x.targets)
+                                                                      for x in ast.walk(n))]
+    for a in asg:
+        v = strip_shape(a.value)
+        while isinstance(v, ast.Call) and (callee(P, f, v) or call_name(v) or '') in ('numpy.copy', 'numpy.array', 'numpy.asarray', 'copy.copy', 'copy.deepcopy') and v.args:
+            v = strip_shape(v.args[0])
+        if u(v) not in ('self.catalog', 'self._catalog'):
+            continue
+        if any(a in ast.walk(lp) for lp in loops):
+            continue
+        o = ck.ob('C04-D7.select', f, a, a)
+        an = cfg.node_of(a)
+        ok = an is not None and any(cfg.node_of(lp) is not None and cfg.postdominates(cfg.node_of(lp), an) for lp in loops)
+        (o.ok('start of the narrowing loop') if ok else
+         o.fail('`%s` lets the unfiltered events through to the result: the statements are not applied on that path (remembered filter '
+                'strings do not prove that the events were filtered - filter(in_place=False) records them on the source catalog too)' % u(a)[:70]))
+
+
 def rule_region_mask(ck):
     """filter_spatial relies on region.get_masked flagging exactly the points outside the region (shared C01-D3/D4)."""
     from . import c01
@@ -389,4 +418,4 @@ def rule_region_mask(ck):
     c01.rule_single_edge(ck)
 
 
-RULES = [rule_operators, rule_narrowing, rule_datetime, rule_effects, rule_spatial, rule_region_interface, rule_load, rule_paths, rule_region_mask]
+RULES = [rule_operators, rule_narrowing, rule_datetime, rule_effects, rule_spatial, rule_region_interface, rule_load, rule_paths, rule_every_path_selects, rule_region_mask]
